@@ -34,6 +34,13 @@ ManyLoops(sp) == LET n == sp \div 100  z == sp % 100
                  IN  [j \in 1..n |-> GenLoop(IF j = z THEN 0 ELSE 3, n, j)]
 ManyList == SetToSortSeq(ManySpecs, <)
 
+\* the special loops: one vertex, (0,0,1) = centre of face 2 for the empty loop, (0,0,-1) = centre of
+\* face 5 with the origin inside for the full loop.  The library writes polygons made of them in the
+\* compressed format only; their version-1 encodings are valid all the same.
+EmptyLoopV == MkLoop(<<Vtx(2, M \div 2, M \div 2, TRUE)>>, FALSE, 0)
+FullLoopV == MkLoop(<<Vtx(5, M \div 2, M \div 2, TRUE)>>, TRUE, 0)
+SpecialPolys == <<<<FullLoopV>>, <<EmptyLoopV>>, <<>>>>
+
 CellA == [f |-> 3, p |-> <<>>]
 CellB == [f |-> 0, p |-> <<2, 1>>]
 CellC == [f |-> 5, p |-> [i \in 1..30 |-> (i * 3 + i \div 4) % 4]]
@@ -62,6 +69,12 @@ BaseSeq ==
     \o If("PolygonL" \in Types,
           [i \in 1..Len(PolyList) |-> LET ls == SpecLoops(PolyList[i])
                                       IN  Base("Polygon", "lossless", ls, <<>>, 0, EncPolygonLossless(ls))])
+    \o If("Loop" \in Types, <<Base("Loop", "v1", <<FullLoopV>>, <<>>, 0, EncLoop(FullLoopV, 0)),
+                               Base("Loop", "v1", <<EmptyLoopV>>, <<>>, 0, EncLoop(EmptyLoopV, 0))>>)
+    \o If("PolygonL" \in Types,
+          [i \in 1..3 |-> Base("Polygon", "lossless", SpecialPolys[i], <<>>, 0, EncPolygonLossless(SpecialPolys[i]))])
+    \o If("PolygonC" \in Types,
+          [i \in 1..2 |-> Base("Polygon", "compressed", SpecialPolys[i], <<>>, 0, EncPolygonCompressed(SpecialPolys[i], 0, W))])
     \o If("PolygonL" \in Types,
           [i \in 1..Len(ManyList) |-> LET ls == ManyLoops(ManyList[i])
                                       IN  Base("Polygon", "lossless", ls, <<>>, 0, EncPolygonLossless(ls))])
